@@ -450,6 +450,9 @@ def option_cases():
         T("b64filter", ["{HX}/vchild", "-1", "exit:0", "drain", "1"], b"YQpiCg==\n", label="b64filter-child-surplus"),
         T("b64filter", ["tr", "-d", "\\n"], b"YQpiCg==\nYw==\n", label="b64filter-child-eats-newlines"),
         T("warc_parallel", ["-j", "2", "{HX}/vchild", "1", "exit:1", "nodrain"], tr.WARC1 + tr.WARC2, label="warc_parallel-child-dies"),
+        # options but no command for the child
+        T("warc_parallel", ["--"], tr.WARC1, label="warc_parallel-no-command"), T("warc_parallel", ["-j", "2", "--"], tr.WARC1, label="warc_parallel-j-no-command"),
+        T("cache", ["-k", "1"], few, label="cache-no-command"), T("cache", ["-k", "1", "-t", ","], few, label="cache-no-command-2"),
         T("base64_number", ["x"], b"YQ==\n", label="base64_number-extra-arg"),
         T("mmhsum", ["x"], b"", label="mmhsum-arg"),
     ]
